@@ -3,6 +3,7 @@
 //! not from the implementation. They consume concrete blocks.
 
 pub mod inscriptions;
+pub mod runes;
 pub mod sats;
 
 pub const HALVING: u64 = 210_000;
